@@ -39,24 +39,38 @@ def allocNode (n : String) (rs : List R) : M R Unit := do
   step "walLog:create-processing" n (walAdd "create-processing" n 0)
   step "storeCreateProcessing" n (addMarker n rs.length)
 
-/-- condition step of `doCreateWorkloads` (inside `withNodesPodLocked`) -/
-def createCond (a : CreateArgs R) : M R Unit := do
+/-- `filterNodes`: read the included nodes, or list the pod's nodes -/
+def createFilter (a : CreateArgs R) : M R Unit :=
   if a.includes.isEmpty then readStep "storeGetNodesByPod" ""
   else forEach a.includes (fun n => readStep "storeGetNode" n)
-  if a.noNodes then refuse
+
+/-- `ErrEmptyNodeMap` -/
+def guardNodes (a : CreateArgs R) : M R Unit := if a.noNodes then refuse else pure ()
+
+/-- the loop over the deploy map (or the strategy's refusal) -/
+def createPlan (a : CreateArgs R) : M R Unit :=
+  if a.planOk then forEach a.plan (fun p => allocNode p.1 p.2) else refuse
+
+/-- condition step of `doCreateWorkloads` (inside `withNodesPodLocked`) -/
+def createCond (a : CreateArgs R) : M R Unit := do
+  createFilter a
+  guardNodes a
   step "walLog:allocate-workload" "" (walAdd "allocate-workload" "" 0)
   readStep "pluginGetDeployCapacity" ""
   readStep "storeGetDeployStatus" ""
-  if a.planOk then forEach a.plan (fun p => allocNode p.1 p.2) else refuse
+  createPlan a
 
-/-- instances of one node, in index order; failed instances are noted for the rollback -/
+/-- the message of one instance; a failed instance is noted for the rollback -/
+def instMsg (n : String) (id : Nat) (r : R) (ok : Bool) : M R Unit :=
+  if ok then emit ⟨n, id, true⟩ else do noteFailed n r; emit ⟨n, 0, false⟩
+
+/-- instances of one node, in index order -/
 def deployInsts (n : String) : List R → M R Unit
   | [] => pure ()
   | r :: rest => do
     let s ← getSt
-    let id := s.next
     let ok ← attempt (do let _ ← deployOne n r true; pure ())
-    if ok then emit ⟨n, id, true⟩ else do noteFailed n r; emit ⟨n, 0, false⟩
+    instMsg n s.next r ok
     deployInsts n rest
 
 /-- `doDeployWorkloadsOnNode` -/
@@ -78,32 +92,46 @@ def giveBack (n : String) (r : R) : M R Unit := do
     step "pluginRollbackAlloc" n (addUsage n (-r)))
   pure ()
 
+def hasKey (l : List (String × R)) (n : String) : Bool := l.any (fun p => p.1 == n)
+
 /-- rollback of `doCreateWorkloads`: by condition → everything allocated so far; by then →
-the failed instances of each node -/
-def createRollback (byCond : Bool) : M R Unit := do
+for every planned node with failed instances, one call giving back their resources -/
+def createRollback (a : CreateArgs R) (byCond : Bool) : M R Unit := do
   let ms ← getMS
   if byCond then forEach ms.allocd (fun p => giveBack p.1 p.2)
-  else forEach (keysOf ms.failed) (fun n => giveBack n (sumOn ms.failed n))   -- one call per node
+  else forEach (a.plan.filter (fun p => hasKey ms.failed p.1)) (fun p => giveBack p.1 (sumOn ms.failed p.1))
 
-/-- the body run on the worker pool; deferred calls in Go's reverse order -/
-def create (a : CreateArgs R) : M R Unit := do
-  let condThen : M R Unit := txn
-    (fun flt ms => match createCond a flt ms with
-      | (.ok u, ms') => (.ok u, ms')
-      | (.fail, ms') => (.fail, { ms' with msgs := ms'.msgs ++ [⟨"", 0, false⟩] }))   -- single error message
-    (createThen a)
-    (some createRollback)
-  let _ ← attempt condThen
-  -- defer 3: commit the create-processing events that were logged
+/-- `utils.Txn(cond, then, rollback)` of `doCreateWorkloads`; a failing condition step sends the
+single error message -/
+def createTxn (a : CreateArgs R) : M R Unit :=
+  txn (withFailMsg (createCond a) ⟨"", 0, false⟩) (createThen a) (some (createRollback a))
+
+/-- deferred: commit the create-processing events that were logged -/
+def commitProcessing (a : CreateArgs R) : M R Unit := do
   let ms ← getMS
   forEach (a.plan.filter (fun p => ms.tr.contains ("walLog:create-processing", p.1, true))) (fun p => do
     let _ ← attempt (step "walCommit:create-processing" p.1 (walRm "create-processing" p.1 0)); pure ())
-  -- defer 2: commit the allocate-workload event if it was logged
+
+/-- deferred: commit the allocate-workload event if it was logged -/
+def commitAllocated : M R Unit := do
+  let ms ← getMS
   if ms.tr.contains ("walLog:allocate-workload", "", true) then
     let _ ← attempt (step "walCommit:allocate-workload" "" (walRm "allocate-workload" "" 0))
-  -- defer 1: delete the markers of every planned node (deployMap is set once the plan exists), close
+    pure ()
+  else pure ()
+
+/-- deferred: delete the markers of every planned node (`deployMap` is set once the plan exists) -/
+def deleteMarkers (a : CreateArgs R) : M R Unit := do
   let ms ← getMS
   if a.planOk && ms.tr.contains ("storeGetDeployStatus", "", true) then
     forEach a.plan (fun p => do let _ ← attempt (step "storeDeleteProcessing" p.1 (rmMarker p.1)); pure ())
+  else pure ()
+
+/-- the body run on the worker pool; deferred calls in Go's reverse order of registration -/
+def create (a : CreateArgs R) : M R Unit := do
+  let _ ← attempt (createTxn a)
+  commitProcessing a
+  commitAllocated
+  deleteMarkers a
 
 end Eru.Cluster
